@@ -42,20 +42,27 @@ class C17(Prop):
         "manager (RecoveryRequest.version, get_request, _update_request, the update loop of _synchronize_workflows, "
         "the recoverable decorator's retry recursion, DummyFailureManager.recover): for EVERY history of rollbacks "
         "(any failures, interleavings, rollback sets, is_recovering answers) no version exceeds max(1, max_retries); "
-        "a raise happens exactly when an update finds a job at the limit; one job with any failure pattern executes "
-        "at most `limit` times and version = executions; a job whose first `limit` attempts fail fails the run after "
-        "exactly `limit` executions; fewer failures complete; the dummy manager fails at the first failure after one "
+        "a raise happens exactly when an update finds a job at the limit; for an isolated job (rollback sets containing "
+        "just the failing job) any failure pattern executes it at most `limit` times and version = executions, a job whose "
+        "first `limit` attempts fail fails the run after exactly `limit` executions, fewer failures complete; the dummy manager fails at the first failure after one "
         "execution. Tied to /repo by (a) driving the real RollbackFailureManager._synchronize_workflows/_update_request "
         "through generated rollback histories against a stub scheduler and (b) running real workflows (pipelines, "
         "scatter/gather, diamonds; schedule/transfer/execute faults; soft and fail-stop; limits 1..5; counts 0..limit+2) "
         "with the real executor and comparing the recorded update history, versions, outcomes and attempt counts with "
         "the model, plus an oracle from the property text on every run.")
     LEVEL_NOTE = (
-        "Partial in one respect: that a job is (re-)executed only after its version was incremented (executions <= "
-        "version) is engine behaviour (recovery workflow construction) and is checked on every engine run by the oracle "
-        "and by the CJob/CChain correspondence, not proved. Trusted: Coq kernel + vm_compute, the hand-written model "
-        "Retry/Model.v, the harness (fault injection classes, recording shims that call the unchanged methods), asyncio, "
-        "SQLite. No axioms.")
+        "Partial in these respects. (1) That a job is (re-)executed only after its version was incremented (executions <= "
+        "version) is engine behaviour and is checked on every engine run by the oracle and the CJob/CChain correspondence, not "
+        "proved. (2) 'Instead of looping or hanging': in the model run_job is a structural recursion on the finite list of "
+        "failing attempts, so termination of the MODEL is by construction; that the real executor terminates is exercised "
+        "(every engine run must complete or raise within the time limit), not proved. (3) C17_dummy / "
+        "C17_dummy_single_execution are computations of the three-line definition run_job_dummy (DummyFailureManager.recover "
+        "re-raises); their content is the CDummy correspondence and the oracle on real runs with the dummy manager. (4) "
+        "C17_bound, C17_exhaust, C17_completes_below_limit and C17_chain are about an ISOLATED job / a chain of isolated jobs "
+        "(every rollback set contains just the failing job: soft failures); jobs rolled back as producers of someone else's "
+        "failure are covered by C17_versions_bounded (any rollback sets) and, for completion, by C16_completes_partial. "
+        "Trusted: Coq kernel + vm_compute, the hand-written model Retry/Model.v, the harness (fault injection classes, "
+        "recording shims that call the unchanged methods), asyncio, SQLite. No axioms.")
     TECHNIQUE = ("Coq proof (invariant over all rollback histories; induction over failure patterns) + vm_compute "
                  "correspondence against the real failure manager and real engine runs")
     RULE = ("hist: random histories of 1..8 rollbacks over 1..4 job names with scheduler statuses drawn from all Status "
